@@ -694,7 +694,7 @@ func TestC20(t *testing.T) {
 		t.Fatalf("profiles: %v", err)
 	}
 	corpus()
-	ev.Check(t, rec, "mutations", rec.Pick(quickMutations, 400000), genCase, runCase)
+	ev.Check(t, rec, "mutations", rec.Pick(quickMutations, 250000), genCase, runCase)
 }
 
-const quickMutations = 20000
+const quickMutations = 15000
